@@ -20,16 +20,24 @@ class Injected(Exception):
 # ------------------------------------------------------------------ canonical <-> real objects
 def mk_ref(k):
     r = Reference()
-    r.title = "ref{}".format(k)
+    if k % 4 == 0:
+        # the reference every GenBank submission carries: one title, no identifier — told apart only by authors / journal
+        r.title = "Direct Submission"
+        r.journal = "Submitted ({:02d}-JAN-2020) lab {}".format(k % 28 + 1, k)
+    else:
+        r.title = "ref{}".format(k)
     r.authors = "A{}".format(k)
     return r
 
 
 def ref_id(r):
     if isinstance(r, Reference):
-        m = re.fullmatch(r"ref(\d+)", r.title or "")
-        if m and r.authors == "A" + m.group(1):
-            return int(m.group(1))
+        m = re.fullmatch(r"A(\d+)", r.authors or "")
+        if m:
+            k = int(m.group(1))
+            want = mk_ref(k)
+            if (r.title, r.journal) == (want.title, want.journal):
+                return k
     return None
 
 
